@@ -431,7 +431,9 @@ macro_rules! any_bytes {
         #[kani::stub(alloc::fmt::format, stub_format)]
         fn $name() {
             let mut img: [u8; 48] = kani::any();
-            let len: usize = kani::any();
+            // (fixed-configuration instances read the full 48 bytes and then a few concrete truncations: a
+            // slice of symbolic length defeats constant propagation over the literal configuration fields)
+            let len: usize = if $fixed_config { 48 } else { kani::any() };
             kani::assume(len <= 48);
             if $fixed_config {
                 // configuration fields as literals (1 hash function, 3 buckets): the table allocation and the
@@ -446,6 +448,14 @@ macro_rules! any_bytes {
             let r = CountMinSketch::<$t>::deserialize(&img[..len]);
             kani::cover!(r.is_ok());
             kani::cover!(r.is_err());
+            if $fixed_config {
+                let r2 = CountMinSketch::<$t>::deserialize(&img[..47]);
+                assert!(r2.is_err() || img[3] & 1 != 0, "a truncated non-empty image was accepted");
+                core::mem::forget(r2);
+                let r3 = CountMinSketch::<$t>::deserialize(&img[..15]);
+                assert!(r3.is_err(), "an image shorter than the preamble was accepted");
+                core::mem::forget(r3);
+            }
             if let Ok(g) = r {
                 assert!(g.num_hashes >= 1 && g.num_buckets >= 3);
                 assert!(g.counts.len() == g.num_hashes as usize * g.num_buckets as usize);
